@@ -531,17 +531,20 @@ def finalize (st : PState) (re : Regex) : Res Regex :=
 
 def parseFuel (pattern : List Nat) : Nat := 4 * pattern.length + 8
 
+/-- The part of `Parser::try_parse` after `self.parse_capture_groups()?`. -/
+def parseBody (st : PState) : Res Regex :=
+  match consumeDisjunction (parseFuel st.input) st with
+  | .error e => .error e
+  | .ok (body, st) =>
+    match st.input with
+    | c :: _ => if c == 0x29 then synErr "Unbalanced parenthesis" else synErr "Unexpected char"
+    | [] => finalize st { node := makeCat [body, .goal], flags := st.flags }
+
 /-- `Parser::try_parse` (after the state has been set up). -/
 def tryParse (st : PState) : Res Regex :=
   match parseCaptureGroups st with
   | .error e => .error e
-  | .ok st =>
-    match consumeDisjunction (parseFuel st.input) st with
-    | .error e => .error e
-    | .ok (body, st) =>
-      match st.input with
-      | c :: _ => if c == 0x29 then synErr "Unbalanced parenthesis" else synErr "Unexpected char"
-      | [] => finalize st { node := makeCat [body, .goal], flags := st.flags }
+  | .ok st => parseBody st
 
 /-- `parse::try_parse(pattern, flags)`. -/
 def parse (pattern : List Nat) (flags : Flags) : Res Regex :=
